@@ -46,10 +46,12 @@ def seed_corpus():
     return seeds
 
 
-WEIRD_ARGS = ["", "Clone, Clone", "NoSuch", "Clone(", "Clone()", "Clone(bound())", "Clone(bound(..), dump)", "bound(T)", "dump", "Clone, bound(T: Copy, .., Vec<T>)", "Ord(bound(=))",
+WEIRD_ARGS = ["Clone(bound(T, U, Vec<T>, Option<U>, Box<T>, [U; 2]))", "Clone, Debug, bound(U, T, Vec<U>, Vec<T>, Option<T>, (T, U))", "PartialEq(bound(A, B, C, D, E, F)), Hash(bound(F, E, D, C, B, A))",
+              "", "Clone, Clone", "NoSuch", "Clone(", "Clone()", "Clone(bound())", "Clone(bound(..), dump)", "bound(T)", "dump", "Clone, bound(T: Copy, .., Vec<T>)", "Ord(bound(=))",
               "clone", "Add, AddAssign, Neg, Not", "Deref, DerefMut", "Default, Debug, Hash", "::core::clone::Clone", "Clone Copy", "Clone,, Copy", "Clone = 1", "'a", "1", "\"Clone\"",
               "Copy, Clone, Debug, Default, Ord, PartialOrd, Eq, PartialEq, Hash, Deref, DerefMut, Add, Sub, Mul, Div, Rem, BitAnd, BitOr, BitXor, Shl, Shr, Neg, Not"]
-WEIRD_ATTRS = ["#[ord]", "#[ord = 3]", "#[ord()]", "#[ord(key)]", "#[ord(key = )]", "#[ord(by = |a, b| a.cmp(b), reverse, ignore)]", "#[eq(key = $$)]", "#[hash(by = f, key = $ as u8)]",
+WEIRD_ATTRS = ["#[debug(bound(T, U, V, W, X1, X2))]", "#[ord(bound(A, B, C, D, E))]", "#[default(_, bound(T, U, V, W, Y))]", "#[derive_ex(Clone(bound(A, B, C, D, E)), bound(F, G, H, I, J))]", "#[hash(bound(P, Q, R, S, T2), ignore)]",
+               "#[ord]", "#[ord = 3]", "#[ord()]", "#[ord(key)]", "#[ord(key = )]", "#[ord(by = |a, b| a.cmp(b), reverse, ignore)]", "#[eq(key = $$)]", "#[hash(by = f, key = $ as u8)]",
                "#[debug(transparent)]", "#[debug(transparent, ignore)]", "#[debug = \"x\"]", "#[default]", "#[default()]", "#[default(_)]", "#[default(,)]", "#[default(1, 2)]", "#[default(bound(T))]",
                "#[derive_ex(Clone)]", "#[derive_ex(bound())]", "#[derive_ex]", "#[derive_ex = 1]", "#[partial_eq(bound(..), bound())]", "#[ord(unknown)]", "#[ord(reverse(1))]", "#[partial_ord(ignore = true)]"]
 OTHER_ITEMS = ["union X { a: u8, b: u16 }", "fn f() {}", "trait T {}", "mod m {}", "type A = u8;", "impl X {}", "impl !Send for X {}", "impl core::ops::Add for X {}", "impl Add<u8, u8> for X { type Output = X; }",
